@@ -480,6 +480,8 @@ impl Packet {
     /// Sets the content-format.
     pub fn set_content_format(&mut self, cf: ContentFormat) {
         let content_format: u16 = u16::try_from(usize::from(cf)).unwrap();
+        // Content-Format is not repeatable: replace whatever was set before.
+        self.clear_option(CoapOption::ContentFormat);
         self.add_option_as(
             CoapOption::ContentFormat,
             OptionValueU16(content_format),
